@@ -198,7 +198,8 @@ private:
         }
 
         // Read data.
-        for( int y = 0; y < view.height(); ++y )
+        // the rows of the requested region: a destination view may be larger than the region
+        for( int y = 0; y < this->_settings._dim.y; ++y )
         {
             io_error_if( jpeg_read_scanlines( this->get()
                                             , &row_adr
